@@ -343,3 +343,276 @@ theorem optTok_sound : ∀ fuel, GSound Sm S envO (optTok pats S fuel)
 end
 
 end Einx.OptDag
+
+namespace Einx.OptDag
+variable {V : Type}
+
+/-! ### The top-level graph: new inputs, then the output -/
+
+theorem lookup_zip_nodup : ∀ (l : List Nat) (vals : List V) (m i : Nat) (x : V), l.Nodup → l[m]? = some i → vals[m]? = some x →
+    (l.zip vals).lookup i = some x
+  | [], _, m, i, x, _, h, _ => by simp at h
+  | a :: l, [], m, i, x, _, _, h => by simp at h
+  | a :: l, b :: vals, 0, i, x, _, h1, h2 => by
+    simp at h1 h2; subst h1; subst h2
+    simp [List.zip_cons_cons, List.lookup_cons]
+  | a :: l, b :: vals, m + 1, i, x, hnd, h1, h2 => by
+    simp at h1 h2
+    have hne : (i == a) = false := by
+      have hmem : i ∈ l := List.mem_of_getElem? h1
+      have := (List.nodup_cons.1 hnd).1
+      simp only [beq_eq_false_iff_ne, ne_eq]
+      intro e; subst e; exact this hmem
+    simp only [List.zip_cons_cons, List.lookup_cons, hne]
+    exact lookup_zip_nodup l vals m i x (List.nodup_cons.1 hnd).2 h1 h2
+
+theorem lookup_zip_mem : ∀ (l : List Nat) (vals : List V) (i : Nat) (x : V), (l.zip vals).lookup i = some x → i ∈ l
+  | [], _, i, x, h => by simp at h
+  | a :: l, [], i, x, h => by simp at h
+  | a :: l, b :: vals, i, x, h => by
+    simp only [List.zip_cons_cons, List.lookup_cons] at h
+    by_cases he : i = a
+    · subst he; simp
+    · have : (i == a) = false := by simpa using he
+      simp only [this] at h
+      exact List.mem_cons_of_mem _ (lookup_zip_mem l vals i x h)
+
+theorem lookup_none_of_keys_ne (bnd : List (Nat × V)) (k : Nat) (h : ∀ kv ∈ bnd, kv.1 ≠ k) : bnd.lookup k = none := by
+  induction bnd with
+  | nil => rfl
+  | cons kv rest ih =>
+    obtain ⟨a, b⟩ := kv
+    have hne : (k == a) = false := by
+      simp only [beq_eq_false_iff_ne, ne_eq]
+      intro e
+      exact h (a, b) (by simp) e.symm
+    simp only [List.lookup_cons, hne]
+    exact ih (fun kv hkv => h kv (List.mem_cons_of_mem _ hkv))
+
+/-- Bindings for node indices beyond the store do not change the evaluation of the store. -/
+theorem EnvOK.bind_ext {Sm : Sem V} {nodes : List Node} {bnd : List (Nat × V)} {env : List V} (h : EnvOK Sm nodes bnd env)
+    (extra : List (Nat × V)) (hx : ∀ kv ∈ extra, nodes.length ≤ kv.1) : EnvOK Sm nodes (bnd ++ extra) env := by
+  refine ⟨h.1, ?_⟩
+  intro i n hn
+  obtain ⟨v, hv, he⟩ := h.2 i n hn
+  refine ⟨v, hv, ?_⟩
+  have hi : i < nodes.length := (List.getElem?_eq_some_iff.1 hn).1
+  have hlen : (env.take i).length = i := by rw [List.length_take, h.1]; omega
+  unfold evalNode at he ⊢
+  split
+  · rename_i ho
+    rw [ho] at he
+    simp only at he
+    have hlk : (bnd ++ extra).lookup (env.take i).length = bnd.lookup (env.take i).length := by
+      rw [List.lookup_append]
+      have : extra.lookup (env.take i).length = none := by
+        apply lookup_none_of_keys_ne
+        intro kv hkv
+        have := hx kv hkv
+        omega
+      rw [this]; simp
+    rw [hlk]; exact he
+  · rename_i a ho
+    rw [ho] at he
+    exact he
+  · rename_i s k ho
+    rw [ho] at he
+    exact he
+
+section
+variable (Sm : Sem V) (S : Store) (bindO : List (Nat × V)) (envO : List V) (hO : EnvOK Sm S.nodes bindO envO)
+include hO
+
+/-- The memo part of the invariant. -/
+def MemoOK (envO : List V) (st : St) (envN : List V) : Prop :=
+  ∀ o v, st.memoT.lookup o = some v → ∃ vo, envO[o]? = some vo ∧ evalToks envN v = .ok [.val vo]
+
+theorem newInputs_sound : ∀ (is : List Nat) (vals : List V) (st : St) (js : List Nat) (st1 : St) (bindN : List (Nat × V)) (envN : List V),
+    newInputs S is st = .ok (js, st1) → is.length = vals.length →
+    (∀ (m i : Nat) (x : V), is[m]? = some i → vals[m]? = some x → ∃ ty, S.nodes[i]? = some ⟨ty, .none⟩ ∧ envO[i]? = some x) →
+    EnvOK Sm st.nodes bindN envN → (∀ kv ∈ bindN, kv.1 < st.nodes.length) → MemoOK envO st envN →
+    ∃ ext, EnvOK Sm st1.nodes (bindN ++ js.zip vals) (envN ++ ext) ∧ MemoOK envO st1 (envN ++ ext) ∧ js.length = is.length ∧
+      (∀ i ∈ is, (st1.memoT.lookup i).isSome = true) ∧ st1.graphs = st.graphs
+  | [], vals, st, js, st1, bindN, envN, h, hl, _, hE, _, hM => by
+    simp only [newInputs, pure, Except.pure, Except.ok.injEq, Prod.mk.injEq] at h
+    obtain ⟨rfl, rfl⟩ := h
+    exact ⟨[], by simpa using hE, by simpa using hM, rfl, by simp, rfl⟩
+  | i :: is, [], st, js, st1, bindN, envN, h, hl, _, _, _, _ => by simp at hl
+  | i :: is, x :: vals, st, js, st1, bindN, envN, h, hl, hH, hE, hK, hM => by
+    obtain ⟨ty, hn, hx⟩ := hH 0 i x rfl rfl
+    simp only [newInputs, hn] at h
+    obtain ⟨⟨js', st2⟩, h1, h⟩ := bind_ok.1 h
+    simp only [pure, Except.pure, Except.ok.injEq, Prod.mk.injEq] at h
+    obtain ⟨rfl, rfl⟩ := h
+    -- the new input node
+    have hE1 : EnvOK Sm st.nodes (bindN ++ [(st.nodes.length, x)]) envN :=
+      hE.bind_ext [(st.nodes.length, x)] (by intro kv hkv; simp at hkv; subst hkv; exact Nat.le_refl _)
+    have hev : evalNode Sm (bindN ++ [(st.nodes.length, x)]) envN ⟨ty, .none⟩ = .ok x := by
+      have hlk : (bindN ++ [(st.nodes.length, x)]).lookup envN.length = some x := by
+        rw [List.lookup_append, hE.1]
+        have : bindN.lookup st.nodes.length = none := by
+          apply lookup_none_of_keys_ne
+          intro kv hkv
+          have := hK kv hkv
+          omega
+        rw [this]; simp [List.lookup_cons]
+      have hty := old_tyOK Sm S bindO envO hO i _ x hn hx
+      simp only [evalNode, hlk]
+      simp only at hty
+      simp [hty, pure, Except.pure]
+    have hE2 := hE1.snoc _ x hev
+    have hlen : st.nodes.length = envN.length := hE.1.symm
+    have hM2 : MemoOK envO { st.pushNode ⟨ty, .none⟩ with memoT := (i, [Tok.ref st.nodes.length]) :: st.memoT } (envN ++ [x]) := by
+      intro o w hw
+      simp only [List.lookup_cons] at hw
+      by_cases he : o = i
+      · subst he
+        simp only [beq_self_eq_true, Option.some.injEq] at hw
+        subst hw
+        refine ⟨x, hx, ?_⟩
+        rw [hlen, evalToks_single]
+        simp [evalTok, pure, Except.pure]
+      · have : (o == i) = false := by simpa using he
+        simp only [this] at hw
+        obtain ⟨vo, g1, g2⟩ := hM o w hw
+        exact ⟨vo, g1, evalToks_mono envN [x] w _ g2⟩
+    obtain ⟨ext, hE3, hM3, hjl, hmem, hg⟩ := newInputs_sound is vals _ js' st2 (bindN ++ [(st.nodes.length, x)]) (envN ++ [x]) h1
+      (by simpa using hl) (fun m i' x' a b => hH (m + 1) i' x' (by simpa using a) (by simpa using b))
+      (by simpa [St.pushNode] using hE2)
+      (by
+        intro kv hkv
+        simp only [St.pushNode, List.length_append, List.length_cons, List.length_nil]
+        rcases List.mem_append.1 hkv with hkv | hkv
+        · have := hK kv hkv; omega
+        · simp at hkv; subst hkv; simp) hM2
+    refine ⟨[x] ++ ext, by simpa [List.append_assoc] using hE3, by simpa [List.append_assoc] using hM3, by simp [hjl], ?_, by simpa [St.pushNode] using hg⟩
+    intro i' hi'
+    rcases List.mem_cons.1 hi' with rfl | hi'
+    · -- `i'` was memoised first; later inputs only add entries
+      by_cases hin : i' ∈ is
+      · exact hmem i' hin
+      · -- not overwritten: the entry stays
+        have key : ∀ (is : List Nat) (st js st1), newInputs S is st = .ok (js, st1) → ∀ o, (st.memoT.lookup o).isSome = true → (st1.memoT.lookup o).isSome = true := by
+          intro is
+          induction is with
+          | nil =>
+            intro st js st1 h o ho
+            simp only [newInputs, pure, Except.pure, Except.ok.injEq, Prod.mk.injEq] at h
+            obtain ⟨rfl, rfl⟩ := h
+            exact ho
+          | cons a as ih =>
+            intro st js st1 h o ho
+            simp only [newInputs] at h
+            split at h
+            · obtain ⟨⟨js', st2⟩, h1, h⟩ := bind_ok.1 h
+              simp only [pure, Except.pure, Except.ok.injEq, Prod.mk.injEq] at h
+              obtain ⟨rfl, rfl⟩ := h
+              refine ih _ _ _ h1 o ?_
+              simp only [List.lookup_cons]
+              by_cases he : o = a
+              · subst he; simp
+              · have : (o == a) = false := by simpa using he
+                simp only [this]; exact ho
+            · cases h
+        exact key is _ js' st2 h1 i' (by simp [List.lookup_cons])
+    · exact hmem i' hi'
+
+end
+
+end Einx.OptDag
+
+namespace Einx.OptDag
+variable {V : Type}
+
+/-- **One pass is sound**: on a well-formed top-level graph on which `InlineGraph` does not fire, whatever the graph
+returns on given inputs, the graph after the pass returns the same. -/
+theorem pass_sound (Sm : Sem V) (pats : List Pattern) (hL : Sm.Laws pats) (p p' : Prog) (fuel : Nat) (ch : Bool)
+    (hwf : p.wfTop = true) (hni : noTopInline pats p = true) (hp : pass pats fuel p = .ok (p', ch))
+    (inputs : List V) (r : List (RTok V)) (hev : evalProgram Sm p inputs = .ok r) : evalProgram Sm p' inputs = .ok r := by
+  -- unpack the side conditions
+  unfold Prog.wfTop at hwf
+  split at hwf
+  · rename_i k htop
+    split at hwf
+    · rename_i g hg
+      simp only [Bool.and_eq_true, decide_eq_true_eq, List.all_eq_true] at hwf
+      obtain ⟨hnd, hin⟩ := hwf
+      unfold noTopInline at hni
+      rw [htop] at hni
+      simp only at hni
+      split at hni
+      · rename_i hfm
+        -- the old evaluation
+        unfold evalProgram at hev
+        rw [htop] at hev
+        simp only [hg] at hev
+        split at hev
+        · rename_i hlen
+          have hlen' : g.inputs.length = inputs.length := by simpa using hlen
+          obtain ⟨envO, hE, hout⟩ := bind_ok.1 hev
+          have hO := envOK_of_evalNodes Sm _ _ _ hE
+          -- the pass
+          unfold pass at hp
+          obtain ⟨⟨top, st⟩, h1, hp⟩ := bind_ok.1 hp
+          simp only [pure, Except.pure, Except.ok.injEq, Prod.mk.injEq] at hp
+          obtain ⟨rfl, rfl⟩ := hp
+          rw [htop] at h1
+          simp only [mapToks] at h1
+          obtain ⟨⟨v1, st1⟩, h2, h1⟩ := bind_ok.1 h1
+          simp only [pure, Except.pure, bind, Except.bind, Except.ok.injEq, Prod.mk.injEq] at h1
+          obtain ⟨rfl, rfl⟩ := h1
+          cases fuel with
+          | zero => simp [optTok, throw, throwThe, MonadExceptOf.throw] at h2
+          | succ fuel =>
+            simp only [optTok, List.lookup_nil, hfm, bind, Except.bind, hg] at h2
+            obtain ⟨⟨ins, sta⟩, h3, h2⟩ := bind_ok.1 h2
+            obtain ⟨⟨out, stb⟩, h4, h2⟩ := bind_ok.1 h2
+            simp only [pure, Except.pure, Except.ok.injEq, Prod.mk.injEq] at h2
+            obtain ⟨rfl, rfl⟩ := h2
+            -- new inputs
+            have hH : ∀ (m i : Nat) (x : V), g.inputs[m]? = some i → inputs[m]? = some x →
+                ∃ ty, p.store.nodes[i]? = some ⟨ty, .none⟩ ∧ envO[i]? = some x := by
+              intro m i x hm hx
+              have hmem : i ∈ g.inputs := List.mem_of_getElem? hm
+              have := hin i hmem
+              split at this
+              · rename_i ty hn
+                refine ⟨ty, hn, ?_⟩
+                obtain ⟨v, hv, he⟩ := hO.2 i _ hn
+                have hi : i < p.store.nodes.length := (List.getElem?_eq_some_iff.1 hn).1
+                have hl : (envO.take i).length = i := by rw [List.length_take, hO.1]; omega
+                simp only [evalNode, hl, lookup_zip_nodup g.inputs inputs m i x hnd hm hx] at he
+                split at he
+                · simp only [pure, Except.pure, Except.ok.injEq] at he
+                  rw [he]; exact hv
+                · cases he
+              · cases this
+            obtain ⟨ext, hE1, hM1, hjl, hmem, _⟩ := newInputs_sound Sm p.store _ envO hO g.inputs inputs {} ins sta [] [] h3 hlen' hH
+              ⟨rfl, by intro i n hn; simp at hn⟩ (by intro kv hkv; simp at hkv) (by intro o v hv; simp at hv)
+            have hI : Inv Sm p.store envO sta (ins.zip inputs) ext := by
+              refine ⟨by simpa using hE1, by have := hM1; simp only [List.nil_append] at this; exact this, ?_⟩
+              intro i ty hn
+              obtain ⟨v, hv, he⟩ := hO.2 i _ hn
+              have hi : i < p.store.nodes.length := (List.getElem?_eq_some_iff.1 hn).1
+              have hl : (envO.take i).length = i := by rw [List.length_take, hO.1]; omega
+              simp only [evalNode, hl] at he
+              split at he
+              · rename_i x hx
+                exact hmem i (lookup_zip_mem _ _ _ _ hx)
+              · cases he
+            -- the output
+            have hLs := optTok_sound Sm p.store pats _ envO hO hL fuel
+            obtain ⟨ext2, hI2, hout2⟩ := mapToks_sound Sm p.store envO _ hLs g.output sta out stb _ _ r h4 hI hout
+            -- the new program evaluates
+            unfold evalProgram
+            simp only [List.append_nil, List.getElem?_concat_length]
+            have hl2 : (ins.length == inputs.length) = true := by simp [hjl, hlen']
+            simp only [hl2, if_true]
+            rw [evalNodes_of_envOK Sm _ _ _ hI2.env]
+            simpa [bind, Except.bind] using hout2
+        · cases hev
+      · cases hni
+    · cases hwf
+  · cases hwf
+
+end Einx.OptDag
